@@ -1,5 +1,5 @@
-\* C29 quick: every n in 5..17, every leaf, both hashing variants
-CONSTANTS NMin = 5  NMax = 17  Variants <- MCVariants  Mode = "honest"  MaxDups = 0  MaxDupN = 0
+\* C29 quick: every n in 5..65, every leaf, both hashing variants
+CONSTANTS NMin = 5  NMax = 65  Variants <- MCVariants  Mode = "honest"  MaxDups = 0  MaxDupN = 0
           GateHeights <- MCGateHeights
 INIT Init
 NEXT NextCover
